@@ -22,6 +22,7 @@ import (
 
 	hclog "github.com/hashicorp/go-hclog"
 	"github.com/hashicorp/go-plugin/internal/grpcmux"
+	"github.com/hashicorp/go-plugin/internal/verifhook"
 	"google.golang.org/grpc"
 )
 
@@ -286,6 +287,7 @@ func Serve(opts *ServeConfig) {
 		logger.Error("plugin init error", "error", err)
 		return
 	}
+	verifhook.Point("serve.after-listener")
 
 	// Close the listener on return. We wrap this in a func() on purpose
 	// because the "listener" reference may change to TLS.
@@ -444,6 +446,7 @@ func Serve(opts *ServeConfig) {
 		}
 		fmt.Printf("%s\n", protocolLine)
 		os.Stdout.Sync()
+		verifhook.Point("serve.after-line")
 	} else if ch := opts.Test.ReattachConfigCh; ch != nil {
 		// Send back the reattach config that can be used. This isn't
 		// quite ready if they connect immediately but the client should
